@@ -26,14 +26,6 @@ Lemma C14_primary_check_proof : forall st0 sp locks st infos,
   collect_v st locks infos = Some (collect st locks infos).
 Proof. intros st0 sp locks st infos Hwf Hp. apply (collect_v_ok st0 sp Hwf locks Hp). Qed.
 
-Lemma C14_rollback_markers_partial_proof : forall st0 sp,
-  (forall r l, In r st0 -> k_lock r = Some l -> l_start l <= sp -> is_pess l = false ->
-     committed_at st0 (l_primary l) (l_start l) = None -> late_prewrite_accepted (markers st0 sp) (k_key r) (l_start l) = false) /\
-  (forall k t, In (k, t) (markers st0 sp) ->
-     exists r l, In r st0 /\ k_key r = k /\ k_lock r = Some l /\ l_start l = t /\ t <= sp /\ is_pess l = false /\
-                 committed_at st0 (l_primary l) t = None).
-Proof. intros st0 sp. split; [apply rolled_back_marked|apply marker_only_rolled_back]. Qed.
-
 Lemma C14_delete_range_exact_proof : forall batch_end region_end fuel notify s e st st' pieces,
   (forall i k, batch_end i k = [] \/ lex_lt k (batch_end i k)) ->
   (forall i k, region_end i k = [] \/ lex_lt k (region_end i k)) ->
@@ -41,15 +33,6 @@ Lemma C14_delete_range_exact_proof : forall batch_end region_end fuel notify s e
   st' = (if notify then st else filter (fun r => negb (in_range s e (k_key r))) st) /\
   (forall k, covered pieces k = in_range s e k).
 Proof. intros be re fuel notify s e st st' pieces H1 H2. apply (delete_range_task_exact be re H1 H2). Qed.
-
-Lemma C14_visibility_proof : forall (A : Type) cached ts (data : A),
-  (ts < cached -> check_visibility false cached ts = VisAbortedByGC /\ snapshot_read false cached ts data = (VisAbortedByGC, None)) /\
-  (cached <= ts -> check_visibility false cached ts = VisOk /\ snapshot_read false cached ts data = (VisOk, Some data)).
-Proof.
-  intros A cached ts data; unfold snapshot_read, check_visibility; split; intros H.
-  - apply N.ltb_lt in H; rewrite H; split; reflexivity.
-  - apply N.ltb_ge in H; rewrite H; split; reflexivity.
-Qed.
 
 Lemma C14_visibility_schedule_proof : forall ts cached,
   (forall evs pre post, evs = pre ++ VCheck :: post -> ts < cached_after cached pre -> fst (run_read cached ts evs) = VisAbortedByGC) /\
@@ -152,4 +135,27 @@ Proof.
   - intros p t Hid. apply (outcome_stable st0 sp Hwf st1 p t HI Hid).
   - intros H2. destruct (gc_outcomes_kept_v view st0 sp limit s e fuel os2 st1 st' tr Hf Hwf Hl HI Ho2 H2) as (_ & _ & _ & G4).
     destruct (gc_no_old_lock_v view st0 sp limit s e fuel os2 st1 st' tr Hf Hwf Hl HI Ho2 H2) as [G1 _]. split; assumption.
+Qed.
+
+(* ------------------------------------------------------------------ the effect of a pass on one locked key *)
+Lemma pass_effect : forall view st0 sp limit s e fuel os st' tr r0 l,
+  faithful_view view -> wf_store st0 -> (0 < limit)%nat -> Forall (oracle_ok st0 sp) os ->
+  gc_resolve_range_v view fuel sp limit s e os st0 = GcOk st' tr ->
+  In r0 st0 -> k_lock r0 = Some l -> l_start l <= sp -> in_range s e (k_key r0) = true ->
+  exists r', In r' st' /\ k_key r' = k_key r0 /\ k_lock r' = None /\
+    match committed_at st0 (l_primary l) (l_start l), l_kind l with
+    | Some c, LPut => k_writes r' = mkWrite (l_start l) c (Some (l_val l)) :: k_writes r0
+    | Some c, LDel => k_writes r' = mkWrite (l_start l) c None :: k_writes r0
+    | _, _ => k_writes r' = k_writes r0
+    end.
+Proof.
+  intros view st0 sp limit s e fuel os st' tr r0 l Hf Hwf Hl Hos H Hin Hlk Hle Hir.
+  destruct (gc_outcomes_kept_v view st0 sp limit s e fuel os st0 st' tr Hf Hwf Hl (InvP_init st0 sp) Hos H) as (Hk & Hrel & _ & _).
+  assert (Hkin : In (k_key r0) (keys st')) by (rewrite Hk; apply in_map; exact Hin).
+  apply in_map_iff in Hkin as (r' & Hkr & Hin').
+  destruct (Hrel r' Hin') as (r0' & Hin0' & Hk0' & _ & Hres).
+  assert (r0' = r0) by (apply (sorted_uniq _ (wf_sorted _ Hwf)); [exact Hin0'|exact Hin|congruence]). subst r0'.
+  rewrite Hkr in Hres. specialize (Hres Hir).
+  destruct (resolve_by_outcome_spec st0 sp r0 l Hlk Hle) as (E1 & E2 & E3).
+  exists r'. split; [exact Hin'|]. split; [exact Hkr|]. rewrite Hres. split; [exact E2|exact E3].
 Qed.
